@@ -21,6 +21,7 @@ Bad(e) ==
                             \cup { c \in {"M:GlobalGeneratorUntouchedByDeterministicRoutine"} : "generator_untouched" \in DOMAIN e /\ ~e.generator_untouched }
                             \cup { c \in {"M:ErrorStateAndWarningFiltersRestored"} : "errstate_restored" \in DOMAIN e /\ ~e.errstate_restored }
     [] e.ev = "Seeded"   -> { c \in {"ReproducibleUnderSeed"} : ~e.same } \cup { c \in {"SeedMatters"} : ~e.differs_other_seed }
+    [] e.ev = "Usage"    -> { c \in {"SameAsFreshObject"} : ~e.same }
     [] e.ev = "Returned" -> { c \in {"ResultBelongsToCaller"} : ~e.same }
     [] e.ev = "Stale"    -> { c \in {"AnswersForCurrentContents"} : ~e.same }
     [] e.ev = "Related"  -> { c \in {"AnswerDependsOnArgumentsOnly"} : ~e.same }
